@@ -234,6 +234,16 @@ def run(tier, seed):
     if odd:
         acc.violate("c14:index-size-differs-between-sessions", "session %r serves an index with %d live documents in segments %s; the reference in-memory build has %d" % (
             odd[0]["label"], sum(m - dl for m, dl in odd[0]["layout"]), list(odd[0]["layout"]), live0), {"sessions": [s["label"] for s in odd][:40]})
+    if len(layouts) > 1 and len(digests) == 1:
+        # The sessions laid their documents out differently (segments), yet answered the standard query set alike. A different
+        # layout is no violation - but it is the only way the ORDER of equally good matches can differ, so it triggers a deep
+        # search for a query whose best matches tie across the parts: every prefix pair across two data files (smallest first),
+        # asked of an in-memory and of an on-disk session. Only a differing ANSWER is reported (seed C14-e).
+        found = deep_search(bins["dbg"], facts, acc)
+        if found:
+            q, a, b = found
+            acc.violate("c14:answers-differ-between-sessions", "index layouts differ between sessions (%s) and the query %r is answered %r by the in-memory index but %r by the on-disk index" % (
+                sorted(str(k) for k in layouts), q, a, b), {"query": q, "in_memory": a, "on_disk": b, "layouts": [str(k) for k in layouts]})
     if len(digests) > 1:
         # find which queries differ: re-run one deviating kind of session with vectors kept
         major = digests.most_common(1)[0][0]
@@ -249,6 +259,66 @@ def run(tier, seed):
                                "on a tree whose build uses one indexing thread the layout count is 1 by construction"],
                   extra={"sessions_by_kind": dict(modes), "segment_layouts": {str(k): v for k, v in layouts.items()}},
                   min_eval=1000)
+
+def deep_search(binp, facts, acc, cap=400000):
+    byfile = {}
+    for f in facts:
+        for t in f["tokens"]:
+            if FX.WORD.match(t) and t != "to" and not t[0].isdigit():
+                byfile.setdefault(f["file"], set()).add(t.lower())
+    def prefixes(ws):
+        out = set()
+        for w in ws:
+            for k in range(2, min(len(w), 5) + 1):
+                out.add(w[:k])
+            out.add(w)
+        out.discard("to")
+        return sorted(out)
+    files = sorted(byfile, key=lambda f: len(byfile[f]))
+    cands = []
+    for i, f1 in enumerate(files):
+        for f2 in files[i + 1:]:
+            for p in prefixes(byfile[f1]):
+                for q in prefixes(byfile[f2]):
+                    cands.append(p + " " + q)
+                    if len(cands) >= cap:
+                        break
+    acc.counters["deep_search_candidates"] = len(cands)
+    home = tempfile.mkdtemp(prefix="c14-deep-")
+    try:
+        chunks = [cands[i::NCPU] for i in range(NCPU)]
+        with multiprocessing_pool() as pool:
+            for res in pool.imap_unordered(_deep_chunk, [(binp, home if i == 0 else tempfile.mkdtemp(prefix="c14-deep-"), c) for i, c in enumerate(chunks)]):
+                if res:
+                    return res
+    finally:
+        shutil.rmtree(home, ignore_errors=True)
+    return None
+
+def multiprocessing_pool():
+    import multiprocessing
+    return multiprocessing.get_context("fork").Pool(NCPU)
+
+def _deep_chunk(args):
+    binp, home, cands = args
+    try:
+        with Driver(binp) as m, Driver(binp, env={"XDG_DATA_HOME": home}) as dk:
+            m.call({"op": "db", "mode": "in_memory"}, timeout=900)
+            dk.call({"op": "db", "mode": "disk"}, timeout=900)
+            for i in range(0, len(cands), 4000):
+                qs = cands[i:i + 4000]
+                a = m.call_many([{"op": "query", "q": q, "describe": True} for q in qs], timeout=900)
+                b = dk.call_many([{"op": "query", "q": q, "describe": True} for q in qs], timeout=900)
+                for q, x, y in zip(qs, a, b):
+                    dx = [z["description"] for z in (x.get("descs") or [])]
+                    dy = [z["description"] for z in (y.get("descs") or [])]
+                    if dx != dy:
+                        return (q, dx, dy)
+    except Exception:
+        return None
+    finally:
+        shutil.rmtree(home, ignore_errors=True)
+    return None
 
 def diff_detail(binp, queries, ref_vec, label):
     """Best effort: rebuild in-memory a few times and report the first query whose answer differs from the reference."""
